@@ -496,6 +496,7 @@ void GridGlobal::loadConstructedPoint(const double x[], const std::vector<double
     }else if (result == DynamicConstructorDataGlobal::AddPointResult::tensor_missing){
         dynamic_values->addTensor(wrapper.getLevels(idx).data(), [&](int l)->int{ return wrapper.getNumPoints(l); },
                                   dynamic_values->getMaxTensorWeight() + 1.0);
+        loadConstructedTensors(); // the new tensor may already be complete, e.g., it may hold only this one new point
     }
 }
 void GridGlobal::loadConstructedPoint(const double x[], int numx, const double y[]){
